@@ -43,6 +43,8 @@ type Contract struct {
 	Name       string // function name relative to its package
 	Trusted    bool   // assumed: external or not verifiable
 	ReturnsClosure bool // the body only builds one closure over its parameters and returns it
+	Tolerates  []string // call sites whose reported error is tolerated by design (errdrop obligations)
+	Unchecked  []string // implicit obligations (kind@site) the contract declares out of reach: assumed, reported
 	Any        []AnyVar
 	Requires   []Clause
 	Ensures    []Clause
@@ -113,7 +115,7 @@ var reLabel = regexp.MustCompile(`^([A-Za-z0-9_\-#./]+):\s+(.*)$`)
 
 var keywords = map[string]bool{"func": true, "any": true, "requires": true, "ensures": true, "modifies": true,
 	"loop": true, "trusted": true, "spec": true, "lemma": true, "assume": true, "show": true, "package": true,
-	"global": true, "ghost": true, "option": true, "pure": true, "ghostvar": true, "ufunc": true, "ghosttype": true, "at": true, "model": true, "ensures-assumed": true, "ensures-local": true, "axiom": true, "returns-closure": true}
+	"global": true, "ghost": true, "option": true, "pure": true, "ghostvar": true, "ufunc": true, "ghosttype": true, "at": true, "model": true, "ensures-assumed": true, "ensures-local": true, "axiom": true, "returns-closure": true, "unchecked": true, "tolerates": true}
 
 func (db *ContractDB) errf(format string, a ...interface{}) {
 	db.Errors = append(db.Errors, fmt.Sprintf(format, a...))
@@ -259,6 +261,14 @@ func (db *ContractDB) loadFile(path, defaultPkg string) {
 		case "pure":
 			if cur != nil {
 				cur.ModNothing, cur.HasMod = true, true
+			}
+		case "tolerates":
+			if cur != nil {
+				cur.Tolerates = append(cur.Tolerates, strings.TrimSpace(strings.SplitN(d.rest, "//", 2)[0]))
+			}
+		case "unchecked":
+			if cur != nil {
+				cur.Unchecked = append(cur.Unchecked, strings.TrimSpace(strings.SplitN(d.rest, "//", 2)[0]))
 			}
 		case "returns-closure":
 			if cur != nil {
